@@ -464,3 +464,237 @@ Proof.
   intros s v v' H H'. apply parse_integer_complete in H. apply parse_integer_complete in H'.
   rewrite H in H'. inversion H'. reflexivity.
 Qed.
+
+(* ------------------------------------------------------------------ *)
+(** * Byte offsets and slices *)
+
+Lemma len_utf8_pos : forall c, 1 <= len_utf8 c.
+Proof. intros c. unfold len_utf8. cmp; lia. Qed.
+
+Lemma bytes_app : forall a b, bytes (a ++ b) = bytes a + bytes b.
+Proof. induction a as [|c a IH]; intros b; simpl; [lia|]. rewrite IH. lia. Qed.
+
+Lemma bytes_zero : forall l, bytes l = 0 -> l = [].
+Proof. intros [|c l] H; [reflexivity|]. simpl in H. pose proof (len_utf8_pos c). lia. Qed.
+
+Lemma drop_bytes_app : forall p r, drop_bytes (p ++ r) (bytes p) = Some r.
+Proof.
+  induction p as [|c p IH]; intros r; simpl.
+  - destruct r; reflexivity.
+  - pose proof (len_utf8_pos c). destruct (N.eqb_spec (len_utf8 c + bytes p) 0); [lia|].
+    destruct (N.leb_spec (len_utf8 c) (len_utf8 c + bytes p)); [|lia].
+    replace (len_utf8 c + bytes p - len_utf8 c) with (bytes p) by lia. apply IH.
+Qed.
+
+Lemma take_bytes_app : forall p r, take_bytes (p ++ r) (bytes p) = Some p.
+Proof.
+  induction p as [|c p IH]; intros r; simpl.
+  - destruct r; reflexivity.
+  - pose proof (len_utf8_pos c). destruct (N.eqb_spec (len_utf8 c + bytes p) 0); [lia|].
+    destruct (N.leb_spec (len_utf8 c) (len_utf8 c + bytes p)); [|lia].
+    replace (len_utf8 c + bytes p - len_utf8 c) with (bytes p) by lia. rewrite IH. reflexivity.
+Qed.
+
+Lemma slice_app : forall p m q, slice (p ++ m ++ q) (bytes p) (bytes p + bytes m) = Some m.
+Proof.
+  intros p m q. unfold slice. destruct (N.leb_spec (bytes p) (bytes p + bytes m)); [|lia].
+  rewrite drop_bytes_app. replace (bytes p + bytes m - bytes p) with (bytes m) by lia.
+  apply take_bytes_app.
+Qed.
+
+(* ------------------------------------------------------------------ *)
+(** * Scripts: the two readers cut a text into the same lines *)
+
+Definition nodelim (l : list N) : Prop := forallb (fun c => negb (is_delim c)) l = true.
+
+Lemma is_delim_model : forall c, ((c =? 10) || (c =? 59)) = is_delim c.
+Proof. intros c. unfold is_delim. apply orb_comm. Qed.
+
+Lemma is_delim_len : forall c, is_delim c = true -> len_utf8 c = 1.
+Proof. intros c H. unfold is_delim in H. cmp_in H; try discriminate; subst; reflexivity. Qed.
+
+Lemma rev_nonempty : forall (c : N) l, rev (c :: l) <> [].
+Proof. intros c l H. simpl in H. destruct (rev l); discriminate. Qed.
+
+(** Shape of a text: a first line without separators, then the end or a separator. *)
+Lemma split_aux_shape : forall s cur,
+  (nodelim s /\ split_aux s cur = match rev cur ++ s with [] => [] | _ => [rev cur ++ s] end) \/
+  (exists line d tail, s = line ++ d :: tail /\ nodelim line /\ is_delim d = true /\
+     split_aux s cur = (rev cur ++ line) :: split_aux tail []).
+Proof.
+  induction s as [|c s IH]; intros cur.
+  - left. split; [reflexivity|]. simpl. rewrite app_nil_r. destruct cur as [|x cur]; [reflexivity|].
+    destruct (rev (x :: cur)) eqn:E; [exfalso; eapply rev_nonempty; exact E|reflexivity].
+  - simpl. destruct (is_delim c) eqn:Ed.
+    + right. exists [], c, s. repeat split; auto. rewrite app_nil_r. reflexivity.
+    + destruct (IH (c :: cur)) as [[Hn E]|(line & d & tail & -> & Hn & Hd & E)].
+      * left. split. { unfold nodelim. simpl. rewrite Ed. exact Hn. }
+        rewrite E. simpl rev. rewrite <- app_assoc. reflexivity.
+      * right. exists (c :: line), d, tail. repeat split; auto.
+        { unfold nodelim. simpl. rewrite Ed. exact Hn. }
+        rewrite E. simpl rev. rewrite <- app_assoc. reflexivity.
+Qed.
+
+Lemma argument_scan_line : forall line tail cur, nodelim line ->
+  (tail = [] \/ exists d t, tail = d :: t /\ is_delim d = true) ->
+  argument_scan (line ++ tail) cur = cur + bytes line.
+Proof.
+  induction line as [|c line IH]; intros tail cur Hn Ht.
+  - simpl. destruct Ht as [->|(d & t & -> & Hd)]; simpl; [lia|].
+    rewrite is_delim_model, Hd. lia.
+  - unfold nodelim in Hn. simpl in Hn. apply andb_true_iff in Hn. destruct Hn as [Hc Hn].
+    simpl. rewrite is_delim_model. destruct (is_delim c); [discriminate|].
+    rewrite IH by assumption. lia.
+Qed.
+
+(** The part of the `--command` text that is still to be read. *)
+Definition ArgState (a : argument) (rest : list N) : Prop :=
+  (rest = [] /\ bytes (a_buffer a) <= a_cursor a) \/
+  (exists p, a_buffer a = p ++ rest /\ a_cursor a = bytes p).
+
+Lemma argument_read_spec : forall a rest, ArgState a rest ->
+  match split_script rest with
+  | [] => argument_read a = Ok (None, a)
+  | l :: ls => exists a' rest', argument_read a = Ok (Some l, a') /\ ArgState a' rest' /\
+                                split_script rest' = ls /\ a_buffer a' = a_buffer a
+  end.
+Proof.
+  intros a rest Hst. unfold split_script.
+  destruct rest as [|c0 rest0].
+  { simpl. unfold argument_read. destruct Hst as [[_ H]|(p & Hb & Hc)].
+    - destruct (N.leb_spec (bytes (a_buffer a)) (a_cursor a)); [reflexivity|lia].
+    - rewrite Hb, Hc, app_nil_r. destruct (N.leb_spec (bytes p) (bytes p)); [reflexivity|lia]. }
+  destruct Hst as [[H _]|(p & Hb & Hc)]; [discriminate|].
+  set (rest := c0 :: rest0) in *.
+  assert (Hlt : a_cursor a < bytes (a_buffer a)).
+  { rewrite Hb, Hc, bytes_app. subst rest. simpl. pose proof (len_utf8_pos c0). lia. }
+  assert (Hread : forall line tail, rest = line ++ tail -> nodelim line ->
+            (tail = [] \/ exists d t, tail = d :: t /\ is_delim d = true) ->
+            argument_read a = Ok (Some line, mkArgument (a_buffer a) (bytes p + bytes line + 1))).
+  { intros line tail E Hn Ht. unfold argument_read.
+    destruct (N.leb_spec (bytes (a_buffer a)) (a_cursor a)); [lia|].
+    rewrite Hb, Hc, drop_bytes_app. rewrite E, argument_scan_line by assumption.
+    rewrite slice_app. reflexivity. }
+  destruct (split_aux_shape rest []) as [[Hn E]|(line & d & tail & Er & Hn & Hd & E)].
+  - simpl rev in E. simpl app in E. rewrite E. unfold rest at 1.
+    exists (mkArgument (a_buffer a) (bytes p + bytes rest + 1)), [].
+    split. { apply (Hread rest []); auto. rewrite app_nil_r. reflexivity. }
+    split. { left. split; [reflexivity|]. cbn [a_buffer a_cursor]. rewrite Hb, bytes_app. lia. }
+    split; reflexivity.
+  - simpl rev in E. simpl app in E. rewrite E.
+    exists (mkArgument (a_buffer a) (bytes p + bytes line + 1)), tail.
+    split. { apply (Hread line (d :: tail)); eauto. }
+    split. { right. exists (p ++ line ++ [d]). cbn [a_buffer a_cursor]. split.
+             - rewrite Hb, Er, <- !app_assoc. reflexivity.
+             - rewrite !bytes_app. simpl. rewrite (is_delim_len d Hd). lia. }
+    split; reflexivity.
+Qed.
+
+Lemma stdin_loop_spec : forall input buf,
+  match split_aux input buf with
+  | [] => stdin_loop input buf = (None, [])
+  | l :: ls => exists rest, stdin_loop input buf = (Some l, rest) /\ split_aux rest [] = ls
+  end.
+Proof.
+  induction input as [|c input IH]; intros buf; simpl.
+  - destruct buf; [reflexivity|]. exists []. split; reflexivity.
+  - rewrite is_delim_model. destruct (is_delim c).
+    + exists input. split; reflexivity.
+    + apply IH.
+Qed.
+
+(** What a session makes of a list of raw lines. *)
+Fixpoint run_raw (ls : list (list N)) : list event :=
+  match ls with
+  | [] => []
+  | raw :: r =>
+      match parse_line raw with
+      | None => run_raw r
+      | Some (Ok c) => EvCommand c :: run_raw r
+      | Some (Err e) => EvError e :: run_raw r
+      | Some (ExitP c) => [EvExit c]
+      | Some (Panic w) => [EvPanic w]
+      end
+  end.
+
+Definition RState (r : reader) (la : list N) : Prop :=
+  match r_argument r with
+  | None => la = []
+  | Some a => ArgState a la
+  end.
+
+Lemma session_loop_spec : forall fuel r la, RState r la ->
+  (List.length (split_script la) + List.length (split_script (r_stdin r)) < fuel)%nat ->
+  session_loop fuel r = run_raw (split_script la ++ split_script (r_stdin r)).
+Proof.
+  induction fuel as [|fuel IH]; intros r la Hst Hf; [lia|].
+  assert (Hstream : forall r0, r_stdin r0 = r_stdin r -> r_argument r0 = r_argument r -> split_script la = [] ->
+     match (let '(l, rest) := stdin_read (r_stdin r0) in
+            Ok (l, mkReader (r_argument r0) rest) : res unit (option (list N) * reader)) with
+     | Panic w => [EvPanic w] | ExitP c => [EvExit c] | Err _ => [EvPanic 16]
+     | Ok (None, _) => []
+     | Ok (Some raw, r') =>
+         match parse_line raw with
+         | None => session_loop fuel r'
+         | Some (Ok c) => EvCommand c :: session_loop fuel r'
+         | Some (Err e) => EvError e :: session_loop fuel r'
+         | Some (ExitP c) => [EvExit c]
+         | Some (Panic w) => [EvPanic w]
+         end
+     end = run_raw (split_script (r_stdin r))).
+  { intros r0 E1 E2 Ela. rewrite E1. unfold stdin_read.
+    pose proof (stdin_loop_spec (r_stdin r) []) as Hs. unfold split_script in *.
+    destruct (split_aux (r_stdin r) []) as [|l ls] eqn:Esp.
+    - rewrite Hs. reflexivity.
+    - destruct Hs as (rest & -> & Els).
+      assert (Hrec : session_loop fuel (mkReader (r_argument r0) rest) = run_raw ls).
+      { rewrite (IH _ la).
+        - simpl r_stdin. unfold split_script. rewrite Ela, Els. reflexivity.
+        - unfold RState in *. simpl. rewrite E2. exact Hst.
+        - simpl r_stdin. unfold split_script in *. rewrite Ela, Els. rewrite Ela in Hf. simpl in Hf. simpl. lia. }
+      simpl run_raw. destruct (parse_line l) as [[c|e|w|x]|]; rewrite ?Hrec; reflexivity. }
+  simpl session_loop. unfold reader_read.
+  destruct (r_argument r) as [a|] eqn:Ea.
+  - unfold RState in Hst. rewrite Ea in Hst.
+    pose proof (argument_read_spec a la Hst) as Har.
+    destruct (split_script la) as [|l ls] eqn:Ela.
+    + rewrite Har. simpl bind. cbv iota beta.
+      exact (Hstream (mkReader (Some a) (r_stdin r)) eq_refl eq_refl eq_refl).
+    + destruct Har as (a' & rest' & -> & Hst' & Els & _). simpl bind. cbv iota beta.
+      assert (Hrec : session_loop fuel (mkReader (Some a') (r_stdin r)) = run_raw (ls ++ split_script (r_stdin r))).
+      { rewrite (IH _ rest').
+        - simpl r_stdin. rewrite Els. reflexivity.
+        - exact Hst'.
+        - simpl r_stdin. rewrite Els. simpl in Hf. lia. }
+      simpl app. simpl run_raw. destruct (parse_line l) as [[c|e|w|x]|]; rewrite ?Hrec; reflexivity.
+  - unfold RState in Hst. rewrite Ea in Hst. subst la. simpl app.
+    assert (E0 : split_script [] = []) by reflexivity.
+    pose proof (Hstream r eq_refl) as Hs. rewrite Ea in Hs. exact (Hs eq_refl E0).
+Qed.
+
+Lemma split_aux_length : forall s cur,
+  (List.length (split_aux s cur) <= List.length s + match cur with [] => 0 | _ => 1 end)%nat.
+Proof.
+  induction s as [|c s IH]; intros cur; simpl.
+  - destruct cur; simpl; lia.
+  - destruct (is_delim c).
+    + simpl. specialize (IH []). simpl in IH. lia.
+    + specialize (IH (c :: cur)). simpl in IH. lia.
+Qed.
+
+Definition arg_text (arg : option (list N)) : list N := match arg with Some s => s | None => [] end.
+
+(** A session reads the lines of the argument, then the lines of standard input. *)
+Theorem session_raw : forall arg stdin,
+  session arg stdin = run_raw (split_script (arg_text arg) ++ split_script stdin).
+Proof.
+  intros arg stdin. unfold session.
+  rewrite (session_loop_spec _ _ (arg_text arg)).
+  - reflexivity.
+  - unfold RState, reader_from. destruct arg as [s|]; simpl; [|reflexivity].
+    right. exists []. split; reflexivity.
+  - unfold reader_size, reader_from. simpl r_stdin.
+    pose proof (split_aux_length (arg_text arg) []) as H1.
+    pose proof (split_aux_length stdin []) as H2. unfold split_script.
+    destruct arg as [s|]; simpl in *; lia.
+Qed.
